@@ -206,8 +206,10 @@ ev_recv(int i, int blocking)
 		CHECK(KDONE(i) && KRESULT(i) == 0, "receive succeeds at once when a message is buffered");
 	else if (!blocking)
 		CHECK(KDONE(i) && KRESULT(i) == NNG_ETIMEDOUT, "non-blocking receive on an empty buffer fails at once (EAGAIN)");
-	else
+	else {
 		CHECK(!KDONE(i), "blocking receive waits");
+		KWAIT_POST(i, 0);
+	}
 	monitor();
 }
 static void
